@@ -56,7 +56,15 @@ Inductive quoted : Type := QUdp (sport : Z) | QTcp (sport : Z) | QOther.
 Inductive icmp_msg : Type :=
 | IEchoReq (ident len : Z)            (* len = length of the echo data *)
 | IEchoRep (ident len : Z)
-| IErr (ty : Z) (q : quoted) (len : Z). (* error message of wire type ty, total ICMP length len *)
+| IErr (ty : Z) (q : quoted) (len : Z)  (* error message of wire type ty, total ICMP length len *)
+(* NDISC (ICMPv6 only): target address, source / target link-layer address option, and the hop
+   limit of the IPv6 header carrying the message (process_icmpv6 hands NDISC on only when 255) *)
+| INeighSol (target : Z) (lladdr : option hwaddr) (hop_limit : Z)
+| INeighAdv (target : Z) (lladdr : option hwaddr) (hop_limit : Z).
+
+(* length of a link-layer address option: 8 octets for Ethernet, 16 for an extended 802.15.4 address *)
+Definition ndisc_opt_len (l : option hwaddr) : Z :=
+  match l with Some (HwEth _) => 8 | Some _ => 16 | None => 0 end.
 
 Inductive upper : Type :=
 | UTcp (sport dport : Z) (ctl : tcp_ctl) (ack : bool) (len : Z)   (* len = payload length *)
@@ -83,6 +91,7 @@ Definition upper_len (u : upper) : Z :=
   | UUdp _ _ len => wudp_HEADER_LEN + len
   | UIcmp (IEchoReq _ len) | UIcmp (IEchoRep _ len) => 8 + len
   | UIcmp (IErr _ _ len) => len
+  | UIcmp (INeighSol _ l _) | UIcmp (INeighAdv _ l _) => 24 + ndisc_opt_len l
   | UIgmp => 8
   | UOther _ len => len
   end.
@@ -125,7 +134,8 @@ Inductive rkind : Type :=
 | KParamOpt       (* ICMPv6 parameter problem: unrecognized option *)
 | KUdp            (* datagram sent by a UDP socket *)
 | KSyn            (* SYN of a connecting TCP socket *)
-| KNeighSol.      (* NDISC neighbor solicitation *)
+| KNeighSol       (* NDISC neighbor solicitation *)
+| KNeighAdv.      (* NDISC neighbor advertisement answering a solicitation *)
 
 Record reply : Type := mkReply { r_kind : rkind; r_src : ipaddr; r_dst : ipaddr; r_iplen : Z }.
 
@@ -480,13 +490,46 @@ Definition ing_process_ipv4 (ifc : iface) (socks : list sock) (src dst : Z) (u :
 
 (* ------------------------------------------------------------------ IPv6 *)
 
-(* InterfaceInner::process_icmpv6 (NDISC / MLD messages are not modelled) *)
+(* HardwareAddress::is_unicast of a parsed link-layer address option *)
+Definition hw_is_unicast (h : hwaddr) : bool :=
+  match h with
+  | HwEth a => eth_is_unicast a
+  | HwShort _ => negb (hw154_is_broadcast h)
+  | _ => true
+  end.
+
+(* length of the neighbor advertisement built by process_ndisc (target link-layer address option
+   of the medium: 8 / 16 octets) *)
+Definition ing_na_iplen (ifc : iface) : Z :=
+  wipv6_HEADER_LEN + 24 + (match if_medium ifc with M154 => 16 | _ => 8 end).
+
+(* InterfaceInner::process_ndisc, NeighborSolicit arm (fixed: a non-unicast target is discarded
+   with or without a source link-layer option).  The neighbor cache learns (source, lladdr);
+   see ing_neigh_learned.  The advertisement: source = the target address, destination = the
+   solicitation's source. *)
+Definition ing_process_ndisc_ns (ifc : iface) (src dst target : Z) (lladdr : option hwaddr) : option reply :=
+  if negb (v6_x_is_unicast target) then None
+  else if (match lladdr with Some l => negb (hw_is_unicast l) | None => false end) then None
+  else if (ing_has_solicited_node ifc dst || ing_has_ip_addr ifc (V6 dst)) && ing_has_ip_addr ifc (V6 target)
+  then Some (mkReply KNeighAdv (V6 target) (V6 src) (ing_na_iplen ifc))
+  else None.
+
+(* InterfaceInner::process_icmpv6 (router solicitations / advertisements, redirects and MLD are not
+   modelled; NDISC is handed to process_ndisc only with hop limit 255 and never on Medium::Ip;
+   a neighbor advertisement only updates the neighbor cache) *)
 Definition ing_process_icmpv6 (ifc : iface) (socks : list sock) (src dst : Z) (m : icmp_msg) : outcome ing_result :=
   let deliv := filter_idx (fun s => ing_icmp_accepts s false (V6 dst) m) socks in
   match m with
   | IEchoReq _ len =>
       do r <- ing_icmpv6_reply ifc src dst KEchoReply (8 + len);
       Ok (mkRes deliv r)
+  | INeighSol target lladdr hl =>
+      if hl =? 255 then
+        match if_medium ifc with
+        | MIp => Ok (mkRes deliv None)
+        | _ => Ok (mkRes deliv (ing_process_ndisc_ns ifc src dst target lladdr))
+        end
+      else Ok (mkRes deliv None)
   | _ => Ok (mkRes deliv None)
   end.
 
@@ -755,6 +798,31 @@ Definition ing_dispatch_ip (ifc : iface) (r : reply) : outcome (list emitted) :=
 Definition ing_ingress_emits (ifc : iface) (res : ing_result) : outcome (list emitted) :=
   match res_reply res with
   | Some r => ing_dispatch_ip ifc r
+  | None => Ok []
+  end.
+
+(* what process_ndisc put into the neighbor cache before the advertisement is dispatched: the
+   solicitation's source with its source link-layer address option (NeighborCache::fill
+   replaces an existing entry) *)
+Definition ing_neigh_learned (p : packet) (r : reply) : option (ipaddr * hwaddr) :=
+  match r_kind r, p_upper p with
+  | KNeighAdv, UIcmp (INeighSol _ (Some l) _) => Some (p_src p, l)
+  | _, _ => None
+  end.
+
+Definition ifc_learn (ifc : iface) (e : option (ipaddr * hwaddr)) : iface :=
+  match e with
+  | Some x =>
+      mkIface (if_medium ifc) (if_hw ifc) (if_pan ifc) (if_addrs ifc) (if_groups ifc) (if_any_ip ifc)
+              (if_routes ifc) (x :: if_neigh ifc) (if_neigh_silent ifc) (if_ip_mtu ifc) (if_frag_buf ifc)
+              (if_frag_busy ifc)
+  | None => ifc
+  end.
+
+(* what poll_ingress_single emits for packet p, neighbor learning included *)
+Definition ing_ingress_emits_p (ifc : iface) (p : packet) (res : ing_result) : outcome (list emitted) :=
+  match res_reply res with
+  | Some r => ing_dispatch_ip (ifc_learn ifc (ing_neigh_learned p r)) r
   | None => Ok []
   end.
 
